@@ -232,6 +232,34 @@ def mit_apreq_cross(wd, mitdir, limit=3000):
             "disagreeing_deviations": sorted({json.dumps(sorted((d, lines[i - 1]["case"][d]) for d in lines[i - 1]["case"] if lines[i - 1]["case"][d] != NOMINAL.get(d))) for i in bad})[:40]}
 
 
+def mit_client_interop(wd):
+    """MIT's client against the simulated KDC, its AP-REQ against gokrb5's service (vh mitclient, TraceMITClient).  Returns
+    (statistics, rejected lines): a rejected line with mitStage < 7 concerns the simulator, one with mitStage = 7 concerns gokrb5."""
+    exe = build_mitref()
+    if exe is None:
+        return {"available": False}, []
+    d = os.path.join(wd, "mitclient")
+    os.makedirs(d, exist_ok=True)
+    trace = os.path.join(wd, "trace.ndjson")
+    keep = None
+    if os.path.exists(trace):
+        keep = trace + ".keep2"
+        os.rename(trace, keep)
+    try:
+        vlib.run_harness(["mitclient", "-out", trace, "-mitref", exe, "-dir", d], timeout=900)
+        lines = vlib.read_ndjson(trace)
+        res = vlib.tlc_or_die(wd, "TraceMITClient", timeout=600)
+        bad = sorted(int(v) for v in res.tags("BADLINE"))
+        if res.distinct != len(lines) + 1:
+            raise vlib.Inconclusive("TraceMITClient: TLC visited %d states, expected %d" % (res.distinct, len(lines) + 1))
+    finally:
+        if keep:
+            os.replace(keep, trace)
+        shutil.rmtree(d, ignore_errors=True)
+    return ({"available": True, "scenarios": len(lines), "mit_client_completed": sum(1 for x in lines if x["mitStage"] == 7),
+             "accepted_by_gokrb5": sum(1 for x in lines if x["accepted"]), "rejected_lines": len(bad)}, [lines[i - 1] for i in bad])
+
+
 NOMINAL = {"sealedBy": "sel", "kvnoLabel": "k2", "realmLabel": "R", "snameLabel": "P", "etLabel": "E", "tktCipher": "intact", "tktUsage": "right", "trailer": "none",
            "start": "past", "end": "future", "invalid": "no", "caddr": "none", "authKey": "session", "authUsage": "right", "authCipher": "intact", "cname": "match",
            "crealm": "match", "ctime": "now", "pac": "none"}
